@@ -28,6 +28,8 @@ def run(prog, chk):
     closure_preserved(prog, chk)
     collection(prog, chk)
     colours(prog, chk)
+    plain_guards(prog, chk)
+    unfiltered_output(prog, chk)
 
 
 def gating(prog, chk):
@@ -296,3 +298,45 @@ def colours(prog, chk):
     chk.floor("A16.colours", len(cl), 100, "colour name")
     chk.ob(len(set(cl)) == len(cl), "A16.colours", "COLOUR_LIST:unique", "src/colours.rs", f"COLOUR_LIST has {len(cl)} distinct names (each colour class yields one rule)", f"duplicate colour names: {sorted({c for c in cl if cl.count(c) > 1})}")
     chk.ob(set(dk) <= set(cl) and len(set(dk)) == len(dk), "A16.colours", "DARK_COLOURS:subset", "src/colours.rs", f"DARK_COLOURS ({len(dk)}) is a duplicate-free subset of COLOUR_LIST", f"DARK_COLOURS not in COLOUR_LIST: {sorted(set(dk) - set(cl))}")
+
+
+def plain_guards(prog, chk):
+    """a class-gated rule is gated by its class alone: no `if` condition mentions has_class() together with anything
+    else (an extra conjunct suppresses a rule whose class is used; a disjunct emits one whose class is not)"""
+    n_plain = 0
+    for body in sorted(prog.bodies.values(), key=lambda b: b.path):
+        if "svgdx::themes::" not in body.path:
+            continue
+        h = prog.hir.get(body.id)
+        if not h or "body" not in h:
+            continue
+        for iff in hirq.exprs(h["body"], "If"):
+            c = iff["cond"]
+            uses = [m for m in hirq.exprs(c, "MethodCall") if m["name"] == "has_class"]
+            if not uses:
+                continue
+            if c.get("k") == "MethodCall" and c["name"] == "has_class":
+                n_plain += 1
+                continue
+            key = hirq.render_string_expr(uses[0]["args"][0]) if uses[0]["args"] else "?"
+            emits = [n for n in hirq.exprs(iff["then"], "MethodCall") if n["name"] in ("add_style", "add_defs")]
+            if emits:
+                chk.bad("A16.plain-guard", f"{body.short}:{key}", body.where(line=c.get("line")), f"{body.short}: the rule/definition for class `{key}` is emitted under has_class({key}) combined with another condition: it no longer appears exactly when the class is used")
+    chk.floor("A16.plain-guard", n_plain, 18, "`if has_class(..)` guard")
+    chk.ok("A16.plain-guard", "scan", "src/themes.rs", f"{n_plain} class guards, each of them the bare has_class() test")
+
+
+def unfiltered_output(prog, chk):
+    """write_auto_styles writes exactly what the theme builder produced: the results of get_defs() / get_styles() are
+    bound directly (no filter / dedup / truncation in between), so rules and the definitions they reference stay paired"""
+    b = prog.body("svgdx::transform::Transformer::write_auto_styles")
+    chk.touch(b)
+    h = prog.hir[b.id]
+    direct = set()
+    for st in hirq.walk(h["body"]):
+        if isinstance(st, dict) and st.get("k") == "Let" and isinstance(st.get("init"), dict) and st["init"].get("k") == "MethodCall" and st["init"]["name"] in ("get_defs", "get_styles"):
+            direct.add(id(st["init"]))
+    for name in ("get_defs", "get_styles"):
+        calls = [m for m in hirq.exprs(h["body"], "MethodCall") if m["name"] == name]
+        ok = len(calls) == 1 and id(calls[0]) in direct
+        chk.ob(ok, "A10.unfiltered-output", f"write_auto_styles:{name}", b.where(line=calls[0].get("line") if calls else None), f"the result of {name}() is written as produced by the theme builder", f"the result of {name}() is post-processed (filtered / mapped) before it is written, or read more than once: an emitted rule can lose the definition it references (or vice versa)")
